@@ -282,7 +282,17 @@ fn cli_timeout(args: &[String], secs: u64, cwd: Option<&Path>) -> (String, Strin
         }
     };
     let err = h.join().unwrap_or_default();
-    let ex: String = err.lines().filter(|l| l.contains("panicked at") || l.contains("error") || l.contains("overflow")).take(3).collect::<Vec<_>>().join(" | ").chars().take(400).collect();
+    // the panic header line, the message line after it, and error lines
+    let mut picked: Vec<&str> = vec![];
+    let mut take_next = false;
+    for l in err.lines() {
+        if take_next || l.contains("panicked at") || l.contains("error") || l.contains("overflow") {
+            picked.push(l);
+        }
+        take_next = l.contains("panicked at");
+        if picked.len() >= 4 { break; }
+    }
+    let ex: String = picked.join(" | ").chars().take(500).collect();
     let v = match status {
         None => "timeout".to_owned(),
         Some(s) => match s.code() {
